@@ -213,3 +213,13 @@ M('c12-asgi-render-returns-media', 'C12', 'R4', ARS,
   "                data = self._media_rendered\n", "                data = self._media\n")
 M('c12-app-inline-render-always', 'C12', 'R4', AA,
   "                        if resp._media_rendered is _UNSET:\n", "                        if resp._media is not None:\n")
+
+M('c12-media-setter-identity-shortcut', 'C12', 'R4', 'falcon/response.py',
+  """    def media(self, value: Any) -> None:
+        self._media = value
+        self._media_rendered = _UNSET
+""", """    def media(self, value: Any) -> None:
+        if value is not self._media:
+            self._media = value
+            self._media_rendered = _UNSET
+""")
